@@ -343,6 +343,24 @@ def r4_selector(ctx, m, pat_alpha: str) -> None:
         r.violation("C02.R4", MOD + ".identifier_pattern", f"alphabet {''.join(sorted(set(pat_alpha)))!r}", f"pattern alphabet contains regex metacharacters {sorted(meta)} that reach re.compile unescaped", loc)
     else:
         r.ok("C02.R4", MOD + ".identifier_pattern", "pattern alphabet minus '*' contains no regex metacharacter", loc)
+    # every detection name must be reachable by a pattern: pattern alphabet ⊇ identifier alphabet
+    try:
+        ident_alpha = const_eval(prog, m, _resolve_alias(m, _module_assign(m, "identifier")).args[0])
+    except Exception:
+        ident_alpha = None
+    if ident_alpha is not None:
+        missing = set(ident_alpha) - set(pat_alpha)
+        if missing:
+            r.violation("C02.R4", MOD + ".identifier_pattern", f"pattern alphabet lacks {''.join(sorted(missing))!r}", f"detection names may contain {sorted(missing)} but no selector pattern can: '1 of sel-*' is a syntax error although 'sel-1 or sel-2' parses", loc)
+        else:
+            r.ok("C02.R4", MOD + ".identifier_pattern", "pattern alphabet ⊇ identifier alphabet", loc)
+    sp = prog.func(MOD + ".ConditionSelector.postprocess")
+    ctor = [c for c in walk_no_nested(sp.node) if isinstance(c, ast.Call) and call_name(c) == "self.cond_class"]
+    if ctor and any(g.replace(" ", "") in ("len(ids)==0", "notids") and not p or g.replace(" ", "") in ("ids", "len(ids)>0") and p for g, p in atomic_guards(guards_at(prog, sp, ctor[0]))) \
+            and any(isinstance(x, ast.Raise) and "SigmaConditionError" in unparse(x) for x in walk_no_nested(sp.node)):
+        r.ok("C02.R4", sp.qual, "a selector that matches no detection is a SigmaConditionError (no operator without operands is built)", sp.loc)
+    else:
+        r.violation("C02.R4", sp.qual, "self.cond_class(ids) for an empty match", "a selector that matches no detection builds an operator without operands, which the n-ary converters drop: 'a or 1 of x*' and 'a and 1 of x*' both convert to a, 'not 1 of x*' to nothing — the condition no longer denotes the function it spells", sp.loc)
     if "*" not in pat_alpha or "_" not in pat_alpha:
         r.violation("C02.R4", MOD + ".identifier_pattern", f"alphabet {''.join(sorted(set(pat_alpha)))!r}", "pattern alphabet must contain '*' and '_'", loc)
     fi = prog.func(MOD + ".ConditionSelector.resolve_referenced_detections")
